@@ -858,8 +858,11 @@ class Dict(dict, base.Symbolic, pg_typing.CustomTyping):
     """Update Dict with the same semantic as update on standard dict."""
     updates = dict(other) if other else {}
     updates.update(kwargs)
+    # NOTE: the keys are keys of this dict, not key paths (a key may contain
+    # '.' or '[').
     self.rebind(
-        updates, raise_on_no_change=False, skip_notification=True)
+        {utils.KeyPath(k): v for k, v in updates.items()},
+        raise_on_no_change=False, skip_notification=True)
 
   def __ior__(self, other) -> 'Dict':
     """Updates the Dict in place (`d |= other`)."""
